@@ -49,6 +49,23 @@ theorem isInLocation_is_go (l : Loc) (line col : Int) :
     simp [h1, h2, h3, h4, h5, h6]
 #print axioms isInLocation_is_go
 
+/-- the visibility test as it stands in /repo now (regenerated on every run): declared before the position; the
+    owner exemption; inside the declaration region only on the declared name; the ReferExp switch for
+    variables without a region — the shape `Scope.isCorrectPosition` is written after — and the lookup
+    tries the declarations of a name from the last one backwards, scope by scope outwards -/
+theorem visibility_code_shape :
+    Gen.correctPositionShape =
+      ["if !varInfo.Loc.IsBeforeLoc(loc) {return false}",
+       "if !varInfo.DeclRegion.IsInitialLoc()&&ownerFlag {return true}",
+       "if !varInfo.DeclRegion.IsInitialLoc() {if varInfo.DeclRegion.IsContainLoc(loc)&&!varInfo.Loc.IsContainLoc(loc) {return false};return true}",
+       "typeswitch varInfo.ReferExp.(type)"] ∧
+    Gen.findLocVarShape =
+      ["if locInfoList==nil {if scope.Parent!=nil {return scope.Parent.findLocVar(name,loc,ownerFlag)};return nil,false}",
+       "for i:=len(locInfoList.VarVec)-1;i>=0;i-- {if locVar.isCorrectPosition(loc,ownerFlag) {return locVar,true}}",
+       "if scope.Parent!=nil {return scope.Parent.findLocVar(name,loc,ownerFlag)}",
+       "return nil,false"] := ⟨by rfl, by rfl⟩
+#print axioms visibility_code_shape
+
 /-! ### one scope: the position test against Lua's "scope begins after the declaring statement" -/
 
 def pt (line col : Int) : Loc := ⟨line, col, line, col⟩
